@@ -526,3 +526,51 @@ def sup_error(e, x, H, lo, hi, target, max_boxes=20000, min_width=1e-12):
     top = -heap[0][0] if heap else 0.0
     if heap and top > done: worst = (heap[0][1], heap[0][2])
     return max(done, top), n, worst, last[0]
+
+def certified_app_hook(H: Helpers):
+    """frange.APP_HOOK: range of a powf/expf application from the certified relative error bound
+    (engine/approx.py) wherever its preconditions hold, the generic binade-wise body analysis elsewhere"""
+    from . import frange as FR
+    TINY = 2.0 ** -126
+    def hook(n, rec):
+        generic = lambda: FR.app_range(n, rec, FR._DYN_ATOM[0])
+        try:
+            name = n.args[0].split('::')[-1]
+            rs = [rec(a) for a in n.args[1:]]
+            if any(r[2] or abs(r[0]) == INF or abs(r[1]) == INF for r in rs):
+                return generic()
+            if name == 'powf' and H.kind.get('powf') == 'poly' and H.pow is not None and 'powf' not in H.fail:
+                (blo, bhi, _), (ylo, yhi, _) = rs
+                if blo < 0 or max(abs(ylo), abs(yhi)) > 80:
+                    return generic()
+                c = H.pow
+                B = approx.powf_bound(c, max(abs(ylo), abs(yhi)))
+                if not math.isfinite(B):
+                    return generic()
+                lo, hi = INF, -INF
+                if blo < TINY:
+                    if ylo <= 0:
+                        return generic()
+                    top = i_pow(I(TINY, TINY), ylo).hi
+                    lo, hi = 0.0, up(top * (1 + c['bound80']) + 1e-36)
+                    if bhi <= TINY:
+                        return (lo, hi, False)
+                    blo = TINY
+                Bx = I(blo, bhi); Y = I(ylo, yhi)
+                Xr = i_log2(Bx) * Y
+                if Xr.mag > approx.LOG2_1E35:
+                    return generic()
+                ideal = Helpers._ideal_pow(Bx, Y) if (ylo == yhi or blo == bhi) else i_exp2(Xr)
+                r = ideal * I(1 - B, 1 + B)
+                return (min(lo, max(r.lo, 0.0)), max(hi, r.hi), False)
+            if name == 'expf' and H.kind.get('expf') == 'poly' and H.exp is not None and 'expf' not in H.fail:
+                (alo, ahi, _), = rs
+                if alo < -85 or ahi > 85 or not math.isfinite(H.exp['bound']):
+                    return generic()
+                b = H.exp['bound']
+                r = i_exp(I(alo, ahi)) * I(1 - b, 1 + b)
+                return (max(r.lo, 0.0), r.hi, False)
+        except (Unsupported, ZeroDivisionError, OverflowError, ValueError):
+            pass
+        return generic()
+    return hook
